@@ -1,8 +1,19 @@
-(** Property C13 -- scrollback retention bounded (PARTIAL: the trim step; see DESIGN.md).
+(** Property C13 -- scrollback retention is bounded by the configured limit.
     Only pinned statements, closed by [exact], with their assumptions printed. *)
-From Avt Require Import Model.Vt Proofs.Inv Proofs.BufScroll.
+From Avt Require Import Oracles.Step Proofs.Inv Proofs.BufScroll Proofs.InvTerm Proofs.InvStep.
 
-(** after the end-of-call trim the scrollback holds at most `hard = L + L/10` lines (exactly L after an actual trim) *)
+(** For every size, every limit L and every session: after any feed_str / resize call has returned, lines() holds at most rows + L + L/10 lines (exactly rows when L = 0), and exactly the visible rows while the alternate screen is showing. *)
+Theorem C13_run : forall c r l ops o v, 1 <= c -> 1 <= r -> Forall op_ok (ops ++ [o]) -> match o with Feed _ => False | _ => True end -> runM (vt_new c r l) (ops ++ [o]) = Ok v -> holds_C13 v = true.
+Proof. exact C13_run_last. Qed.
+Check C13_run : forall c r l ops o v, 1 <= c -> 1 <= r -> Forall op_ok (ops ++ [o]) -> match o with Feed _ => False | _ => True end -> runM (vt_new c r l) (ops ++ [o]) = Ok v -> holds_C13 v = true.
+Print Assumptions C13_run.
+
+(** the lazy-trim invariant (every growth site sets trim_needed) is preserved by every operation, and the end-of-call trim establishes the bound *)
+Theorem C13_step : forall v o v' out, Inv v -> TInvL (vterm v) -> op_ok o -> stepM v o = Ok (v', out) -> match o with Feed _ => TInvL (vterm v') | _ => TInvL (vterm v') /\ holds_C13 v' = true end.
+Proof. exact C13_bound. Qed.
+Check C13_step : forall v o v' out, Inv v -> TInvL (vterm v) -> op_ok o -> stepM v o = Ok (v', out) -> match o with Feed _ => TInvL (vterm v') | _ => TInvL (vterm v') /\ holds_C13 v' = true end.
+Print Assumptions C13_step.
+
 Theorem C13_gc_bound : forall b b' d soft hard, BGeom b -> buf_gc b = Ok (b', d) -> blimit b = Some (soft, hard) -> (soft <= hard)%N -> trim_needed b = true -> (N.of_nat (sb_len b') <= hard)%N /\ ((hard < N.of_nat (sb_len b))%N -> N.of_nat (sb_len b') = soft /\ length d = sb_len b - N.to_nat soft) /\ (~ (hard < N.of_nat (sb_len b))%N -> lines b' = lines b /\ d = []).
 Proof. exact buf_gc_bound. Qed.
 Check C13_gc_bound : forall b b' d soft hard, BGeom b -> buf_gc b = Ok (b', d) -> blimit b = Some (soft, hard) -> (soft <= hard)%N -> trim_needed b = true -> (N.of_nat (sb_len b') <= hard)%N /\ ((hard < N.of_nat (sb_len b))%N -> N.of_nat (sb_len b') = soft /\ length d = sb_len b - N.to_nat soft) /\ (~ (hard < N.of_nat (sb_len b))%N -> lines b' = lines b /\ d = []).
